@@ -75,6 +75,11 @@ fn parse_st(c: &Sx) -> Sx {
         let mut st = crate::conv::sx_to_state(&c[3])?;
         let mut is = InstructionSet::new();
         is.load();
+        if !c[4].as_l()?.is_empty() {
+            // history: the same text was read once before the host registered its own instructions (a lookup must not be remembered)
+            let mut scratch = PushState::new();
+            PushParser::parse_program(&mut scratch, &is, &text);
+        }
         for n in c[4].as_l()? {
             is.add(n.as_string()?, pushr::push::instructions::Instruction::new(|_s, _c| {}));
         }
